@@ -413,6 +413,10 @@ func (c03) Generate(r *rand.Rand, t string) []*Case {
 	for i, n := 0, tier(t, 800, 80000); i < n; i++ {
 		out = append(out, c03CollisionCase(r, i))
 	}
+	// round 6 (c03_insert.go), drawn after everything older
+	for i, n := 0, tier(t, 700, 12000); i < n; i++ {
+		out = append(out, c03InsertCase(r, i))
+	}
 	return out
 }
 
@@ -642,7 +646,12 @@ func c03Small(n int) string {
 	return "8+"
 }
 
-func (c03) Compare(c *Case, exp, got []hist.Obs) string { return CompareAll(exp, got) }
+func (c03) Compare(c *Case, exp, got []hist.Obs) string {
+	if m, ok := c.Meta["c03i"].(*c03iMeta); ok {
+		return c08fCompare(m.F.Views, exp, got) // stream insert-between-renders: the replayed renders are left out
+	}
+	return CompareAll(exp, got)
+}
 
 func refOracle(c *Case, got []hist.Obs) string {
 	rc := c.Meta["rc"].(*RefCase)
@@ -656,4 +665,9 @@ func refOracle(c *Case, got []hist.Obs) string {
 	return rc.Resolve(o.Out)
 }
 
-func (c03) Oracle(c *Case, got []hist.Obs) string { return refOracle(c, got) }
+func (c03) Oracle(c *Case, got []hist.Obs) string {
+	if m, ok := c.Meta["c03i"].(*c03iMeta); ok {
+		return c03InsertOracle(m, got)
+	}
+	return refOracle(c, got)
+}
